@@ -18,7 +18,8 @@ def gen_mps_program(rng, depth=None, allow_add=True, allow_dw=True, max_c=6, sma
     """2D program from the MPS-supported subset of the grammar: Conv2d (incl. depthwise), Linear,
     Conv-BN, Linear-BN, ReLU, pooling, flatten, residual add.  No concat, single input."""
     for _ in range(100):
-        b = pitgen.Builder(rng, family, {'max_c': max_c, 'max_f': 8, 'pmodes': True})
+        b = pitgen.Builder(rng, family, {'max_c': max_c, 'max_f': 8, 'pmodes': True,
+                                             'nonsquare': True})
         c0 = rng.randint(1, 3)
         H, W = (rng.randint(4, 6), rng.randint(4, 6)) if small else (rng.randint(5, 9), rng.randint(5, 9))
         if family == '1d':
